@@ -188,9 +188,11 @@ Relay(a, o, obs) ==
     /\ nproof' = nproof + 1
     /\ UNCHANGED <<stores, layout>>
 
+\* no proof is promised; but what the service does hand out for a committed block must still be a proof of what was
+\* asked: a response for a batch that names a result that is not stored (skipped, substituted, ...) is not one
 Refuse(a, o, obs) ==
     /\ ~Provable(obs)
-    /\ chk' = AllGood
+    /\ chk' = (IF o.ok /\ obs.avail THEN [AllGood EXCEPT !.asked = FALSE] ELSE AllGood)
     /\ UNCHANGED <<stores, layout, nproof>>
 
 Verified == \A k \in DOMAIN chk : chk[k]
